@@ -14,6 +14,7 @@ Three things live here:
 from __future__ import annotations
 
 import asyncio
+import contextvars
 import random
 import re
 from dataclasses import dataclass, field
@@ -48,6 +49,11 @@ def make_store(kind: str) -> tuple[Any, str | None]:
 NOSTATE_TEXT = "handler crashed before persisting any state; cannot resume"
 
 
+# set in the task of an external request (send / cancel through the service) of a race case; inherited by the
+# fire-and-forget delivery task that the request spawns
+_REQUEST: contextvars.ContextVar = contextvars.ContextVar("verif_c15_request", default=None)
+
+
 class InjectedFault(Exception):
     """a transient store failure injected by the harness"""
 
@@ -69,6 +75,15 @@ class FaultStore:
         self.status_trace: list[tuple] = []  # (run_id, status) after every successful handler write
         self.early_terminal_events: list[tuple] = []  # terminal event appended while the row was not terminal
         self.by_run = False  # several handlers on one store: look rows up by the run id of the write
+        # (run_id, status before, status after, method, info) for every successful handler write that found a row
+        self.transitions: list[tuple] = []
+        # parking: a store whose answers take time.  `park_lookups`: a handler-id lookup made on behalf of an external
+        # request (the task carries _REQUEST) takes its snapshot and then waits; `park_unidle`: a status write that clears
+        # idle_since waits BEFORE it is executed (the read-modify-write itself stays atomic).  The scheduler releases them.
+        self.park_lookups = False
+        self.park_unidle = False
+        self.parked: list[dict] = []
+        self.park_seq = 0
 
     def __getattr__(self, name: str) -> Any:
         return getattr(self._inner, name)
@@ -110,15 +125,52 @@ class FaultStore:
             return None
         return type("Row", (), {"run_id": r[0], "status": r[1]})()
 
-    def _note(self, run_id: str | None = None) -> None:
+    def _before(self, run_id: str | None = None) -> tuple | None:
+        row = self._row(run_id) if self.by_run else self._row()
+        return None if row is None else (row.run_id, row.status)
+
+    def _note(self, run_id: str | None = None, before: tuple | None = None, method: str = "?", info: Any = None) -> None:
         row = self._row(run_id) if self.by_run else self._row()
         if row is not None:
             self.status_trace.append((row.run_id, row.status))
+            if before is not None and before[0] == row.run_id:
+                self.transitions.append((row.run_id, before[1], row.status, method, info))
+
+    async def _park(self, kind: str, what: Any) -> None:
+        req = _REQUEST.get()
+        self.park_seq += 1
+        item = {"id": self.park_seq, "kind": kind, "what": what, "ev": asyncio.Event(),
+                "hold": bool(req and req.get("hold")) and kind == "lookup", "req": req and req.get("n")}
+        self.parked.append(item)
+        try:
+            await item["ev"].wait()
+        finally:
+            if item in self.parked:
+                self.parked.remove(item)
+
+    def release(self, item: dict) -> None:
+        if item in self.parked:
+            self.parked.remove(item)
+        item["ev"].set()
+
+    async def query(self, query: Any) -> Any:
+        rows = await self._inner.query(query)
+        if self.park_lookups and _REQUEST.get() is not None and getattr(query, "handler_id_in", None) is not None:
+            # a read that takes time: the answer is the state at the time of the read
+            snapshot = [r.model_copy() for r in rows]
+            await self._park("lookup", [getattr(r, "status", None) for r in snapshot])
+            return snapshot
+        return rows
 
     async def update_handler_status(self, run_id: str, **kw: Any) -> None:
-        self._gate("uhs", (run_id, kw.get("status"), "idle_since" in kw))
+        unidle = "idle_since" in kw and kw["idle_since"] is None
+        info = (run_id, kw.get("status"), "idle_since" in kw, unidle)
+        if self.park_unidle and unidle and _REQUEST.get() is not None:
+            await self._park("unidle", run_id)
+        self._gate("uhs", info)
+        before = self._before(run_id)
         await self._inner.update_handler_status(run_id, **kw)
-        self._note(run_id)
+        self._note(run_id, before, "uhs", info)
 
     async def append_event(self, run_id: str, event: Any) -> None:
         types = list(getattr(event, "types", None) or []) + [event.type]
@@ -131,8 +183,9 @@ class FaultStore:
 
     async def update(self, handler: Any) -> None:
         self._gate("upd", (handler.run_id, handler.status))
+        before = self._before(handler.run_id)
         await self._inner.update(handler)
-        self._note(handler.run_id)
+        self._note(handler.run_id, before, "upd", (handler.run_id, handler.status))
 
 
 def canon_error(text: str | None) -> str:
@@ -623,6 +676,8 @@ class CaseResult:
     entered: list = field(default_factory=list)  # event type names that entered the server adapter for the run
     writes: list = field(default_factory=list)
     status_trace: list = field(default_factory=list)
+    transitions: list = field(default_factory=list)  # (run_id, status before, status after, method, info) per handler write
+    late_requests: list = field(default_factory=list)  # external requests that were still in flight when the run ended
     early_terminal_events: list = field(default_factory=list)
     events: list = field(default_factory=list)  # stored event types
     run_id: str | None = None
@@ -716,8 +771,9 @@ def run_case(case: dict) -> CaseResult:
     entered: list = []
     _ENTERED.append(entered)
     live._ACTIVE.append(run)
-    state: dict[str, Any] = {"st": None, "h": None, "done": False, "quiet": 0, "stuck": False}
+    state: dict[str, Any] = {"st": None, "h": None, "done": False, "quiet": 0, "stuck": False, "fs": None, "nreq": 0, "inflight": []}
     horizon = 300.0
+    race = bool(case.get("race"))
 
     def hook_factory(loop: VLoop):
         def hook() -> bool:
@@ -728,6 +784,10 @@ def run_case(case: dict) -> CaseResult:
             for i, ext in enumerate(run.externals):
                 if ext.get("after_quiet", 0) <= state["quiet"] and ext["op"] in ("send", "cancel"):
                     options.append(("ext", i))
+            fs_ = state.get("fs")
+            if fs_ is not None:
+                # answers of the slow store that the scheduler may let through now (held lookups wait for the end of the run)
+                options += [("unpark", it) for it in fs_.parked if not it["hold"]]
             near = any((not h._cancelled) and h._when <= loop.time() + horizon for h in loop._scheduled)  # type: ignore[attr-defined]
             state["quiet"] += 1
             if not options:
@@ -746,25 +806,40 @@ def run_case(case: dict) -> CaseResult:
                 run.waiting.remove(arg)
                 run.gates[arg].set()
                 return True
+            if kind == "unpark":
+                fs_.release(arg)
+                return True
             ext = run.externals.pop(arg)
+            state["nreq"] += 1
+            req = {"n": state["nreq"], "op": ext["op"], "hold": ext.get("hold") == "end"} if race else None
             if ext["op"] == "cancel":
-                loop.create_task(_swallow(st.cancel("h1")))
+                loop.create_task(_swallow(st.cancel("h1"), req))
             else:
-                loop.create_task(_swallow(st.send("h1", ET.mk(ext["ty"], run.fresh(), ext.get("k")), step=ext.get("step"))))
+                loop.create_task(_swallow(st.send("h1", ET.mk(ext["ty"], run.fresh(), ext.get("k")), step=ext.get("step")), req))
             return True
 
         return hook
 
-    async def _swallow(coro: Any) -> None:
+    async def _swallow(coro: Any, req: dict | None = None) -> None:
+        if req is not None:
+            _REQUEST.set(req)
+            state["inflight"].append(req)
         try:
             await coro
         except Exception as e:
             res.notes.append(f"external op failed: {type(e).__name__}")
+        finally:
+            if req is not None and req in state["inflight"]:
+                state["inflight"].remove(req)
 
     async def main(loop: VLoop) -> None:
         base, dbp = make_store(case.get("store", "memory"))
         fs = FaultStore(base)
         fs.plan = _plan(case.get("fault"))
+        if race:
+            fs.park_lookups = True
+            fs.park_unidle = True
+            state["fs"] = fs
         st = Stack.build(case.get("store", "memory"), idle_timeout=idle_timeout, persistence_backoff=backoff, store=fs, db_path=dbp)
         try:
             try:
@@ -821,6 +896,17 @@ def run_case(case: dict) -> CaseResult:
             state["done"] = True
             for _ in range(30):
                 await asyncio.sleep(0)
+            if race:
+                # the run has ended: the requests that are still in flight (their lookup was answered from the state
+                # before the end, or their delivery is queued behind the slow store) now complete, oldest first
+                res.late_requests = [dict(r) for r in state["inflight"]] + [{"queued": it["kind"], "of_request": it["req"]} for it in fs.parked
+                                                                             if it["req"] not in [r["n"] for r in state["inflight"]]]
+                for _round in range(200):
+                    if not fs.parked:
+                        break
+                    fs.release(fs.parked[0])
+                    for _ in range(30):
+                        await asyncio.sleep(0)
             res.record = _snap(await st.handler("h1"))
             res.events = [e.event.type for e in await st.events(hd.run_id)]
             # let every idle / release timer fire on the finished run
@@ -849,7 +935,10 @@ def run_case(case: dict) -> CaseResult:
             if res.record_restart is None:
                 res.writes = list(fs.writes)
             res.status_trace = list(fs.status_trace)
+            res.transitions = list(fs.transitions)
             res.early_terminal_events = list(fs.early_terminal_events)
+            for it in list(fs.parked):
+                fs.release(it)
             try:
                 if st.idle is not None:
                     for t in list(st.idle._background_tasks):
